@@ -228,6 +228,59 @@ fn family(ctx: &mut Ctx, docs: &[(&str, Kind, &str)], ty: &Ty) {
         }
         let _ = with_content;
     }
+    single_with_budgets(ctx);
+}
+
+/// Single-document entry points reject a second document under every budget: a breach raised by the second
+/// document's start (max_documents = 1, a node / event limit that the second document crosses) is an error too,
+/// never "trailing garbage" (F58).
+fn single_with_budgets(ctx: &mut Ctx) {
+    use serde_saphyr::budget::Budget;
+    let firsts = ["a: 1\n", "- x\n- y\n", "scalar\n", "a: 1\n...\n", "--- a: 1\n"];
+    let seconds = ["b: 2\n", "- z\n", "other\n", "{k: [1, 2, 3]}\n"];
+    let any = Ty::Any;
+    for f in firsts {
+        for s2 in seconds {
+            let text = format!("{f}---\n{s2}");
+            let mut budgets: Vec<(String, Option<Budget>)> = vec![("none".into(), None), ("default".into(), Some(Budget::default()))];
+            for md in [1usize, 2, 3] {
+                let mut b = Budget::default();
+                b.max_documents = md;
+                budgets.push((format!("max_documents={md}"), Some(b)));
+            }
+            for (field, lim) in [("max_events", 6usize), ("max_nodes", 4), ("max_total_scalar_bytes", 3), ("max_depth", 1)] {
+                let mut b = Budget::default();
+                match field {
+                    "max_events" => b.max_events = lim,
+                    "max_nodes" => b.max_nodes = lim,
+                    "max_total_scalar_bytes" => b.max_total_scalar_bytes = lim,
+                    _ => b.max_depth = lim,
+                }
+                budgets.push((format!("{field}={lim}"), Some(b)));
+            }
+            for (bname, b) in budgets {
+                let mut o = DOpts::new(P::Error);
+                o.budget = b;
+                let replay = json!({"kind": "single_budget", "text": text, "budget": bname});
+                // K
+                let (term, r, _) = deserk::deser_case(&text, &any, &o);
+                ctx.case(term, true, json!({"kind": "deser", "text": text, "ty": "Any", "opts": o.json()}));
+                // S: through every single-document entry point
+                ctx.direct_evaluations += 4;
+                let results: Vec<(&str, bool)> = vec![
+                    ("from_str", r.is_ok()),
+                    ("from_slice", rt::with_ty(&any, || serde_saphyr::from_slice_with_options::<Dyn>(text.as_bytes(), o.options())).is_ok()),
+                    ("from_reader", rt::with_ty(&any, || serde_saphyr::from_reader_with_options::<_, Dyn>(std::io::Cursor::new(text.as_bytes().to_vec()), o.options())).is_ok()),
+                    ("with_deserializer_from_str", rt::with_ty(&any, || serde_saphyr::with_deserializer_from_str_with_options(&text, o.options(), |d| <Dyn as serde::Deserialize>::deserialize(d))).is_ok()),
+                ];
+                for (name, ok) in results {
+                    if ok {
+                        ctx.fail("single-accepts-second-document", format!("{name} over {text:?} with budget {bname} returns a value although a second document follows"), replay.clone());
+                    }
+                }
+            }
+        }
+    }
 }
 
 fn replay(ctx: &mut Ctx, r: &serde_json::Value) {
